@@ -36,13 +36,14 @@ def impl_label(case) -> str:
     given = dict(kwargs)
     try:
         try:
-            make_graph(case["nodes"], []).visualize(**kwargs)
+            make_graph(case["nodes"], [], case.get("lim")).visualize(**kwargs)
         except KeyError as e:
             # which aliased module does the error name? Only aliased modules that really are absent are candidates
             # (an existing one-letter module name is a substring of any English sentence); the current wording is tried
             # first, then the first absent candidate (dict order) whose name occurs in the message.
             msg = str(e.args[0])
-            absent = [k for k, _ in case["aliases"] if k not in case["nodes"]]
+            present = set(case["nodes"]) if case.get("lim") is None else {".".join(n.split(".")[: case["lim"] + 1]) for n in case["nodes"]}
+            absent = [k for k, _ in case["aliases"] if k not in present]
             import re as _re
             m = _re.search(r"for module (.*), but the module does not exist", msg, _re.S)
             if m and m.group(1) in absent:
@@ -72,7 +73,8 @@ def impl_label(case) -> str:
 def label_line(case) -> str:
     kw = list(case["kw"].keys()) + (["aliases"] if case["aliases"] is not None else [])
     al = enc_pairs(case["aliases"] or [])
-    return f"label nodes={enc_list(case['nodes'])} imps= al={al} kw={','.join(enc(k) if k not in ('spacing','aliases') else k for k in kw)}"
+    lim = "" if case.get("lim") is None else f" lim={case['lim']}"
+    return f"label nodes={enc_list(case['nodes'])} imps= al={al} kw={','.join(enc(k) if k not in ('spacing','aliases') else k for k in kw)}{lim}"
 
 
 def judge(ctx, stream, cases):
@@ -155,7 +157,11 @@ def run(ctx: Ctx):
             kw["node_size"] = [rng.randint(1, 9)]
         if rng.random() < 0.3:
             kw["ax"] = object()
-        cases.append({"nodes": nodes, "aliases": al, "kw": kw})
+        case = {"nodes": nodes, "aliases": al, "kw": kw}
+        if rng.random() < 0.2 and nodes:
+            # a level-limited architecture: modules deeper than the limit do not exist in it, an alias for one is rejected
+            case["lim"] = rng.randint(0, max(0, max(n.count(".") for n in nodes) - 1))
+        cases.append(case)
     judge(ctx, s, cases)
     s.finish()
     return RULE
